@@ -134,6 +134,13 @@ fn run<const N: usize>(s: &mut Summary, v: &V) {
                 if let Obj::C(c) = std::mem::replace(&mut objs[i], Obj::None) { c.assert_is_empty(); }
             }
             "push" => { if let Obj::B(b) = &mut objs[i] { b.push(L::new()); } }
+            "push_full" => {
+                // pushing into a full builder panics; the panic is caught and the builder used further
+                if let Obj::B(b) = &mut objs[i] {
+                    let r = std::panic::catch_unwind(std::panic::AssertUnwindSafe(|| b.push(L::new())));
+                    s.monitor("ArrayBuilder::push on a full builder", r.is_err(), "panics");
+                }
+            }
             "build" => {
                 if let Obj::B(b) = std::mem::replace(&mut objs[i], Obj::None) { caller.extend(b.build()); }
             }
@@ -262,6 +269,12 @@ fn run_zst<const N: usize>(s: &mut Summary, v: &V) {
                 if let ObjZ::C(c) = std::mem::replace(&mut objs[i], ObjZ::None) { c.assert_is_empty(); }
             }
             "push" => { if let ObjZ::B(b) = &mut objs[i] { b.push(Z::new()); } }
+            "push_full" => {
+                if let ObjZ::B(b) = &mut objs[i] {
+                    let r = std::panic::catch_unwind(std::panic::AssertUnwindSafe(|| b.push(Z::new())));
+                    s.monitor("ArrayBuilder<ZST>::push on a full builder", r.is_err(), "panics");
+                }
+            }
             "build" => {
                 if let ObjZ::B(b) = std::mem::replace(&mut objs[i], ObjZ::None) { caller.extend(b.build()); }
             }
